@@ -192,6 +192,10 @@ fn load_known(path: &str) -> Result<Vec<Known>, String> {
                 m.insert(k.clone(), val.as_str().map(|s| s.to_string()).unwrap_or_else(|| val.to_string()));
             }
         }
+        if m.is_empty() {
+            eprintln!("note: known_findings entry without a `match` block ignored (it would mask every violation of its check id): {}", f);
+            continue;
+        }
         out.push(Known {
             check: f.get("check").and_then(|x| x.as_str()).unwrap_or("").to_string(),
             matcher: m,
@@ -475,9 +479,15 @@ fn do_replay(world: &World, path: &str) -> i32 {
         eprintln!("harness error: {}: invalid trace: {}", path, m);
         return 2;
     }
+    if let Fault::ReaderWider(l) = &f {
+        if *l as usize >= world.table.len() {
+            eprintln!("harness error: {}: fault names layout {} of {}", path, l, world.table.len());
+            return 2;
+        }
+    }
     let want = v.get("check").and_then(|x| x.as_str()).unwrap_or("");
-    if v.pointer("/info/canary").and_then(|x| x.as_bool()) == Some(true) {
-        exec::CANARY.store(true, std::sync::atomic::Ordering::Relaxed);
+    if v.pointer("/info/canary").and_then(|x| x.as_u64()).unwrap_or(0) > 0 {
+        exec::CANARY.store(v.pointer("/info/canary").and_then(|x| x.as_u64()).unwrap_or(1) as u8, std::sync::atomic::Ordering::Relaxed);
     }
     if v.pointer("/info/source").and_then(|x| x.as_str()) == Some("ubprobe") {
         exec::LEAN.store(v.pointer("/info/lean_level").and_then(|x| x.as_u64()).unwrap_or(2) as u8, std::sync::atomic::Ordering::Relaxed);
@@ -541,8 +551,8 @@ struct Args {
     miri_workspace: Option<String>,
     /// same, but only used when a native violation fails to replay (quick tier)
     miri_on_demand: Option<String>,
-    /// alarm-path self-test child: run with a deliberately wrong reference model
-    canary: bool,
+    /// alarm-path self-test child: run with a deliberately wrong reference model (1: write phase, 2: read phase)
+    canary: u8,
     /// ubprobe: 2 = codec calls only, 1 = also byte views and size checks (cross-target runs)
     lean_level: u8,
 }
@@ -554,7 +564,13 @@ fn parse_args() -> Args {
             Ok("thorough") => Tier::Thorough,
             _ => Tier::Quick,
         },
-        seed: std::env::var("VERIF_SEED").ok().and_then(|s| s.trim().parse::<u64>().ok()).unwrap_or(DEFAULT_SEED),
+        seed: match std::env::var("VERIF_SEED") {
+            Ok(s) if !s.trim().is_empty() => s.trim().parse::<u64>().unwrap_or_else(|_| {
+                eprintln!("usage error: VERIF_SEED={:?} is not an unsigned integer", s);
+                std::process::exit(2)
+            }),
+            _ => DEFAULT_SEED,
+        },
         runs: std::env::var("VERIF_RUNS").ok().and_then(|s| s.parse().ok()),
         workers: std::env::var("VERIF_WORKERS").ok().and_then(|s| s.parse().ok()).unwrap_or_else(|| std::thread::available_parallelism().map(|n| n.get()).unwrap_or(4).min(16)),
         evidence: None,
@@ -570,7 +586,7 @@ fn parse_args() -> Args {
         also: Vec::new(),
         miri_workspace: None,
         miri_on_demand: None,
-        canary: false,
+        canary: 0,
         lean_level: 2,
     };
     let mut it = std::env::args().skip(1);
@@ -591,7 +607,13 @@ fn parse_args() -> Args {
                     }
                 }
             }
-            "--seed" => a.seed = val().parse().unwrap_or(DEFAULT_SEED),
+            "--seed" => {
+                let v = val();
+                a.seed = v.trim().parse().unwrap_or_else(|_| {
+                    eprintln!("usage error: --seed {:?} is not an unsigned integer", v);
+                    std::process::exit(2)
+                })
+            }
             "--runs" => a.runs = val().parse().ok(),
             "--workers" => a.workers = val().parse().unwrap_or(1),
             "--evidence" => a.evidence = Some(val()),
@@ -604,7 +626,7 @@ fn parse_args() -> Args {
             "--variant" => a.variant = val(),
             "--miri-probe" => a.miri_workspace = Some(val()),
             "--miri-on-demand" => a.miri_on_demand = Some(val()),
-            "--canary" => a.canary = true,
+            "--canary" => a.canary = val().parse().unwrap_or(1),
             "--lean-level" => a.lean_level = val().parse().unwrap_or(2),
             "--codec-only" => a.codec_only = true,
             "--also" => {
@@ -851,36 +873,42 @@ fn miri_probe(args: &Args, ws: &str, label: &str, target: Option<&str>, lean: &s
     }
 }
 
-/// Alarm-path self-test: a child process runs a small batch against a deliberately wrong reference
-/// model; it must exit 1, print a VIOLATION line, and leave a minimised replay file that reproduces.
+/// Alarm-path self-test: two child processes run a small batch against a deliberately wrong reference
+/// model — one wrong in the write phase (big-endian payload, expected class E1), one wrong in the read
+/// phase (every bare value expected with its lowest bit flipped, expected class D1). Each must exit 1,
+/// print a VIOLATION line, and leave a minimised replay file of the expected class that reproduces.
 fn alarm_path_selftest(args: &Args) -> Result<Value, String> {
     let me = std::env::current_exe().map_err(|e| e.to_string())?;
-    let dir = format!("{}/selftest-{}", args.replay_dir, std::process::id());
-    let evp = format!("{}/evidence.json", dir);
-    std::fs::create_dir_all(&dir).map_err(|e| e.to_string())?;
-    let out = std::process::Command::new(&me)
-        .args(["run", "--tier", "quick", "--seed", &args.seed.to_string(), "--runs", "300", "--workers", "4", "--variant", "canary", "--canary", "--evidence", &evp, "--replay-dir", &dir, "--known", "/nonexistent"])
-        .output()
-        .map_err(|e| e.to_string())?;
-    let so = String::from_utf8_lossy(&out.stdout).to_string();
-    let line = so.lines().find(|l| l.starts_with("VIOLATION property=")).map(|l| l.to_string());
-    let path = line.as_ref().and_then(|l| l.rsplit("replay=").next()).unwrap_or("").to_string();
-    let doc: Value = std::fs::read_to_string(&path).ok().and_then(|t| serde_json::from_str(&t).ok()).unwrap_or(Value::Null);
-    // replay it once more ourselves, in yet another process
-    let again = std::process::Command::new(&me).args(["replay", &path]).output().map_err(|e| e.to_string())?;
-    let again_ok = again.status.code() == Some(1) && String::from_utf8_lossy(&again.stdout).contains("REPLAY-VIOLATION check=E1");
-    let res = json!({
-        "what": "a child process ran 300 histories against a deliberately wrong (big-endian) reference model",
-        "child_exit": out.status.code(), "violation_line": line.is_some(),
-        "check_id": doc.get("check"), "records_after_minimisation": doc.pointer("/trace/records").and_then(|r| r.as_array()).map(|a| a.len()),
-        "records_before_minimisation": doc.pointer("/info/minimised/records_before"),
-        "replayed_in_a_fresh_process": again_ok,
-    });
-    let _ = std::fs::remove_dir_all(&dir);
-    if out.status.code() != Some(1) || line.is_none() || doc.get("check").and_then(|c| c.as_str()) != Some("E1") || !again_ok {
-        return Err(format!("alarm-path self-test failed: {}", res));
+    let mut all = Vec::new();
+    for (level, want) in [(1u8, "E1"), (2u8, "D1")] {
+        let dir = format!("{}/selftest-{}-{}", args.replay_dir, std::process::id(), level);
+        let evp = format!("{}/evidence.json", dir);
+        std::fs::create_dir_all(&dir).map_err(|e| e.to_string())?;
+        let out = std::process::Command::new(&me)
+            .args(["run", "--tier", "quick", "--seed", &args.seed.to_string(), "--runs", "300", "--workers", "4", "--variant", "canary", "--canary", &level.to_string(), "--evidence", &evp, "--replay-dir", &dir, "--known", "/nonexistent"])
+            .output()
+            .map_err(|e| e.to_string())?;
+        let so = String::from_utf8_lossy(&out.stdout).to_string();
+        let line = so.lines().find(|l| l.starts_with("VIOLATION property=")).map(|l| l.to_string());
+        let path = line.as_ref().and_then(|l| l.rsplit("replay=").next()).unwrap_or("").to_string();
+        let doc: Value = std::fs::read_to_string(&path).ok().and_then(|t| serde_json::from_str(&t).ok()).unwrap_or(Value::Null);
+        // replay it once more ourselves, in yet another process
+        let again = std::process::Command::new(&me).args(["replay", &path]).output().map_err(|e| e.to_string())?;
+        let again_ok = again.status.code() == Some(1) && String::from_utf8_lossy(&again.stdout).contains(&format!("REPLAY-VIOLATION check={}", want));
+        let res = json!({
+            "planted": if level == 1 { "write phase: big-endian reference model" } else { "read phase: model expects every bare value with its lowest bit flipped" },
+            "histories": 300, "child_exit": out.status.code(), "violation_line": line.is_some(), "expected_check_id": want,
+            "check_id": doc.get("check"), "records_after_minimisation": doc.pointer("/trace/records").and_then(|r| r.as_array()).map(|a| a.len()),
+            "records_before_minimisation": doc.pointer("/info/minimised/records_before"),
+            "replayed_in_a_fresh_process": again_ok,
+        });
+        let _ = std::fs::remove_dir_all(&dir);
+        if out.status.code() != Some(1) || line.is_none() || doc.get("check").and_then(|c| c.as_str()) != Some(want) || !again_ok {
+            return Err(format!("alarm-path self-test failed: {}", res));
+        }
+        all.push(res);
     }
-    Ok(res)
+    Ok(Value::Array(all))
 }
 
 fn cmd_run(world: &World, args: &Args) -> i32 {
@@ -957,7 +985,7 @@ fn cmd_run(world: &World, args: &Args) -> i32 {
             "layouts": space.len(), "widths": if args.tier == Tier::Thorough { json!([8, 16]) } else { json!([8]) },
             "bit_patterns_per_layout": "all 2^width", "histories": sb.stats.histories, "executions": sb.stats.executions,
             "complete": sb.completed == total && !sb.capped && sb.violation.is_none(),
-            "what": "every bit pattern of every listed layout: encode_to -> model bytes and integer-twin bytes, decode -> same bits, every strict prefix fails, byte-view algebra, plus a second record whose writer/reader/reader layout rotate with the value",
+            "what": "every bit pattern of every listed layout: encode_to -> model bytes and integer-twin bytes, decode -> same bits, every strict prefix fails, byte-view algebra (exhaustive per layout); plus a second record whose writer, reader and reader layout rotate with the value and the layout's rank, so that every single writer and reader (not every pair) meets every bit pattern of the width in some layout",
         });
         let v = sb.violation;
         batch.stats.merge(sb.stats);
@@ -968,7 +996,7 @@ fn cmd_run(world: &World, args: &Args) -> i32 {
     // thorough tier: exhaustive 32-bit sweep of the canonical encode_to / decode pair (lean loop), all 66
     // 32-bit layouts x 2^32 patterns, split into 4096 chunks per layout over the workers
     let mut sweep32 = json!(null);
-    if args.tier == Tier::Thorough && batch.violation.is_none() && !args.canary {
+    if args.tier == Tier::Thorough && batch.violation.is_none() && args.canary == 0 {
         let t1 = Instant::now();
         let lays: Vec<u16> = world.table.iter().enumerate().filter(|(_, o)| o.w == 32).map(|(i, _)| i as u16).collect();
         let chunks_per = 4096u64;
@@ -990,7 +1018,20 @@ fn cmd_run(world: &World, args: &Args) -> i32 {
                     let hit = match r {
                         Ok(None) => None,
                         Ok(Some(v)) => Some(v),
-                        Err(_) => Some(lo), // unwound somewhere in this chunk; the re-execution below pins it
+                        Err(_) => {
+                            // unwound somewhere in this chunk: walk it pattern by pattern to pin the offender
+                            let mut found = None;
+                            for v in lo..=hi {
+                                match std::panic::catch_unwind(|| (world.table[l as usize].sweep32)(v, v)) {
+                                    Ok(None) => {}
+                                    _ => {
+                                        found = Some(v);
+                                        break;
+                                    }
+                                }
+                            }
+                            found.or(Some(lo))
+                        }
                     };
                     if let Some(v) = hit {
                         let mut g = bad.lock().unwrap();
@@ -1027,6 +1068,10 @@ fn cmd_run(world: &World, args: &Args) -> i32 {
             }
         }
     }
+    // a batch that hit its wall-clock cap or did not finish is not a basis for "held": the verdict must not
+    // depend on how fast this machine happens to be
+    let expected_runs = runs + if sweep.is_null() { 0 } else { total };
+    let incomplete = batch.violation.is_none() && (batch.capped || batch.completed < expected_runs || sweep32.get("complete").and_then(|c| c.as_bool()) == Some(false));
     let st = &batch.stats;
     let wall = t0.elapsed().as_secs_f64();
 
@@ -1049,7 +1094,7 @@ fn cmd_run(world: &World, args: &Args) -> i32 {
             "minimised": {"shrink_attempts": tries, "records_before": t.records.len(), "records_after": mt.records.len(),
                            "fault_before": f.to_json(), "fault_after": mf.to_json()},
             "original_detail": v.detail,
-            "regenerate_unminimised_with": format!("c10sim gen --seed {} --run {}", args.seed, run),
+            "regenerate_unminimised_with": if t.seed == 0 { "n/a: found by a PRNG-free sweep; the history in this file is explicit and complete".to_string() } else { format!("c10sim gen --seed {} --run {}", args.seed, run) },
         });
         let doc = replay_json(world, &mt, &mf, &mv, info);
         if let Err(e) = std::fs::write(&replay_path, serde_json::to_string_pretty(&doc).unwrap()) {
@@ -1084,7 +1129,7 @@ fn cmd_run(world: &World, args: &Args) -> i32 {
     // alarm-path self-test: only meaningful (and only needed) when the search above held — on a violating
     // tree the alarm path has just been exercised for real, and the canary child could meet the real
     // violation before the planted one
-    if exit == 0 && !unreproducible && !args.canary && args.variant == "main" {
+    if exit == 0 && !unreproducible && args.canary == 0 && args.variant == "main" {
         match alarm_path_selftest(args) {
             Ok(v) => alarm_selftest = v,
             Err(e) => {
@@ -1336,6 +1381,10 @@ fn cmd_run(world: &World, args: &Args) -> i32 {
         wall,
         (0..6).map(|i| format!("{}={}", FAULT_KINDS[i], st.fault_fired[i])).collect::<Vec<_>>().join(" ")
     );
+    if exit == 0 && incomplete {
+        eprintln!("harness error: the batch did not run to completion ({} of {} histories, wall-clock cap hit: {}); no verdict (raise --cap-s / VERIF_CAP_S or lower --runs)", batch.completed, expected_runs, batch.capped);
+        return 2;
+    }
     if exit == 0 && unreproducible {
         eprintln!("harness error: a native run misbehaved in a way that does not replay (see the notes above) and the interpreter probe did not pin it down; no verdict");
         return 2;
